@@ -24,7 +24,12 @@ def run(ctx):
     mp.dps = 40
     ss = S.generate(ctx, 16 if ctx.quick else 120, 3 if ctx.quick else 6, max_e=6 if ctx.quick else 7,
                     max_loops=3 if ctx.quick else 4, routings_per_graph=1, kinds=("uniform", "uniform", "corner"), scales=(1, 1, 1, Fraction(1, 2 ** 33), 2 ** 30))
+    # exact integer degrees of divergence and even dimensions (integral exponents of powf), >= 4 loops with shifts on several loops
+    ss += S.generate(ctx, 0, 3 if ctx.quick else 6, routings_per_graph=1, kinds=("uniform",),
+                     special=("integer_dod:4", "integer_dod:2", "integer_dod:3", "integer_dod:5", "integer_dod:6", "integer_dod:1") * (1 if ctx.quick else 4))
+    ss += S.generate(ctx, 3 if ctx.quick else 12, 3, max_e=6, max_loops=5, routings_per_graph=1, kinds=("uniform",), names=["banana5", "banana6"])
     S.run(ss)
+    SC.generic_scalar_guard(ctx, ss[:: 5], k=6)
     SC.corr_sample(ctx, ss, fields=("uTrop", "vTrop", "jac"))
     for s in ss:
         a, c, r = s["impl"], s["case"], s["routing"]
